@@ -9,16 +9,6 @@ regenerated `Gen/Core.lean`, so every `decide` below is re-checked against the l
 namespace VelaVerif.Props.C17
 open VelaVerif.Gen VelaVerif.Payload
 
-/-- Hand-written expectation (Ethos-U driver documentation as quoted in DESIGN.md):
-    accelerator name ↦ (product, log2 MACs/cc, SHRAM KiB). -/
-def specTable : List (String × Nat × Nat × Nat) :=
-  [ ("ethos-u55-32", 0, 5, 16), ("ethos-u55-64", 0, 6, 16), ("ethos-u55-128", 0, 7, 24),
-    ("ethos-u55-256", 0, 8, 48), ("ethos-u65-256", 1, 8, 48), ("ethos-u65-512", 1, 9, 96) ]
-
-/-- the config word a driver expects: macs[3:0] | version[7:4]=0 | shram[15:8] | product[31:28] -/
-def specConfigWord (product log2macs shramKiB : Nat) : Nat :=
-  log2macs + shramKiB * 256 + product * 2 ^ 28
-
 /-- The configuration action matches every accelerator (product, MACs/cc, SHRAM size) and every
     field fits its bit width (nothing truncated). -/
 theorem config_word_matches :
@@ -26,7 +16,10 @@ theorem config_word_matches :
       specTable.map fun (n, p, m, s) => (n, specConfigWord p m s) := by decide
 
 /-- `ARCH_VER` 1.0.6 in bits [31:28].[27:20].[19:16] -/
-theorem id_word_matches : buildIdWord = 1 * 2 ^ 28 + 0 * 2 ^ 20 + 6 * 2 ^ 16 := by decide
+theorem id_word_matches : buildIdWord = specIdWord := by decide
+
+/-- what the model encodes is what the acceptance predicate expects, for every accelerator row -/
+theorem model_config_accepted : ∀ a ∈ accelerators, some (buildConfigWord a) = specConfigWordFor a.name := by decide
 
 theorem config_tag : makeDaTag daConfig 0 ((1 <<< daConfigPatchShift) ||| 0) = 0x00100001 := by decide
 
